@@ -590,6 +590,19 @@ Section ChartThm.
         destruct k; cbn [kind_eqb wlist app]; rewrite ?app_nil_r; apply Permutation_refl.
   Qed.
 
+  (* every measure of the written note data has a multiple of 4 rows, whatever interpretation reads it *)
+  Theorem chart_rows4_gen (HC : CELLS) body : chart_body cf current c = Some body ->
+    forall keys' time' op acc op' acc' ns,
+      denote_measures (match body with [] => [] | _ => split_on 44 body end) keys' 0 time' op acc [] = Some (op', acc', ns) ->
+      Forall (fun n => (n mod 4 = 0)%Z) ns.
+  Proof.
+    intro Hb. unfold chart_body in Hb. rewrite chart_placed_eq, Hgk in Hb.
+    destruct (write_measures cf current ps (Some keys) (-1) (measures_of ps)) as [out|] eqn:W; [|discriminate]. injection Hb as <-.
+    apply (chart_body_rows4 cf Kmet Kcap_pos time keys ps keys_pos ps_ok (ps_nodup HC)); [rewrite Kcap; reflexivity| |exact W].
+    intros p Hp. unfold ps in Hp. apply in_map_iff in Hp. destruct Hp as (e & <- & _). unfold placeE, place. cbn [p_den]. rewrite Kmet.
+    apply Z.mod_mul. lia.
+  Qed.
+
   Lemma time_bt o : In o os -> time (bt o) == o.
   Proof.
     intro Ho. unfold time. apply (beat_time_exact cf rows init l Hscript Htd script beat0 o (bt o) (bt o) Hsc Hb0); [|reflexivity].
@@ -710,6 +723,7 @@ Section ChartThm.
       exists body. split; [exact B1|]. split; [exact B2|]. split; [exact B3|]. exists op, notes, ns. split; [exact D|]. split; [exact Ho|].
       intro k. exists (wlist k). split; [apply Hp|apply wlist_eqv].
     Qed.
+    Definition chart_rows4 := chart_rows4_gen exact_cells.
   End ExactRegime.
 
   (* ================= the cap regime ================= *)
@@ -777,5 +791,6 @@ Section ChartThm.
       exists body. split; [exact B1|]. split; [exact B2|]. split; [exact B3|]. exists op, notes, ns. split; [exact D|]. split; [exact Ho|].
       intro k. exists (wlist k). split; [apply Hp|apply wlist_cap].
     Qed.
+    Definition chart_rows4_cap := chart_rows4_gen cap_cells.
   End CapRegime.
 End ChartThm.
